@@ -4233,4 +4233,103 @@ theorem assignIds_injective (m : VMap) : IdsInjective (assignIds false m) := by
 
 
 
+
+
+/-! ### renumbering changes ids only -/
+
+mutual
+def eraseVis : Vis → Vis
+  | .mk n _ c ch => .mk n 0 c (eraseVisL ch)
+def eraseVisL : List Vis → List Vis
+  | [] => []
+  | v :: vs => eraseVis v :: eraseVisL vs
+end
+
+def eraseSide (s : Side) : Side := { s with id := 0 }
+def eraseSolid (s : Solid) : Solid := { s with id := 0, sides := s.sides.map eraseSide }
+/-- an entity without its ids and without its logical position (which defaults to `[0 <id>]`) -/
+def eraseEnt (e : Ent) : Ent := { e with id := 0, solids := e.solids.map eraseSolid, logicalPos := [] }
+def eraseGroup (g : Group) : Group := { g with id := 0 }
+
+mutual
+theorem assignVis_erase (p : Bool) : (v : Vis) → (m : IdMan) → eraseVis (assignVisAux p v m).1 = eraseVis v
+  | .mk n id c ch, m => by
+    simp only [assignVisAux, eraseVis]
+    rw [assignVisList_erase p ch m]
+theorem assignVisList_erase (p : Bool) : (vs : List Vis) → (m : IdMan) →
+    eraseVisL (assignVisAux.assignVisList p vs m).1 = eraseVisL vs
+  | [], _ => rfl
+  | v :: vs, m => by
+    simp only [assignVisAux.assignVisList, eraseVisL]
+    rw [assignVis_erase p v m, assignVisList_erase p vs _]
+end
+
+theorem assignSides_erase (p : Bool) (ss : List Side) (m : IdMan) :
+    (assignSides p ss m).1.map eraseSide = ss.map eraseSide := by
+  induction ss generalizing m with
+  | nil => rfl
+  | cons s r ih => simp [assignSides, ih, eraseSide]
+
+theorem assignSolids_erase (p : Bool) (ss : List Solid) (st : Ids) :
+    (assignSolids p ss st).1.map eraseSolid = ss.map eraseSolid := by
+  induction ss generalizing st with
+  | nil => rfl
+  | cons s r ih => simp [assignSolids, ih, eraseSolid, assignSides_erase]
+
+theorem assignEnt_erase (p : Bool) (e : Ent) (st : Ids) :
+    eraseEnt (assignEnt p e st).1 = eraseEnt e ∧
+    (assignEnt p e st).1.logicalPos
+      = (if e.logicalPos.isEmpty then defaultLogical (assignEnt p e st).1.id else e.logicalPos) := by
+  simp [assignEnt, eraseEnt, assignSolids_erase]
+
+theorem assignEnts_erase (p : Bool) (es : List Ent) (st : Ids) :
+    (assignEnts p es st).1.map eraseEnt = es.map eraseEnt := by
+  induction es generalizing st with
+  | nil => rfl
+  | cons e r ih => simp [assignEnts, ih, (assignEnt_erase p e st).1]
+
+theorem assignGroups_erase (gs : List Group) (m : IdMan) (acc : List Group) (h : m.Inv)
+    (hacc : ∀ g ∈ acc, g.id ∈ m.used) :
+    (assignGroups false gs m acc).1.map eraseGroup = acc.map eraseGroup ++ gs.map eraseGroup := by
+  induction gs generalizing m acc with
+  | nil => simp [assignGroups]
+  | cons g r ih =>
+    obtain ⟨h1, h2, h3, h4⟩ := get_false_spec m g.id h
+    have hnot : acc.any (fun x => x.id == (m.get false g.id).1) = false := by
+      simp only [List.any_eq_false, beq_iff_eq]
+      intro x hx e
+      exact h1 (e ▸ hacc x hx)
+    simp only [assignGroups, hnot, Bool.false_eq_true, if_false]
+    have hacc' : ∀ x ∈ acc ++ [({ id := (m.get false g.id).1, shown := g.shown, auto := g.auto, color := g.color } : Group)],
+        x.id ∈ (m.get false g.id).2.used := by
+      intro x hx
+      rw [h4]
+      simp only [List.mem_append, List.mem_singleton] at hx
+      rcases hx with hx | rfl
+      · exact List.mem_cons_of_mem _ (hacc x hx)
+      · simp
+    rw [ih (m.get false g.id).2 _ h3 hacc']
+    simp [eraseGroup]
+
+/-- **Renumbering changes ids only.** Whatever `preserve_ids` is, allocation leaves every non-id
+field alone (an empty logical position becomes `[0 <new id>]`, as the constructor does); without
+`preserve_ids` no group is lost either (their fresh ids never collide in the `groups` dict). -/
+theorem assignIds_content (p : Bool) (m : VMap) :
+    eraseVisL (assignIds p m).vis = eraseVisL m.vis ∧
+    eraseEnt (assignIds p m).spawn = eraseEnt m.spawn ∧
+    (assignIds p m).ents.map eraseEnt = m.ents.map eraseEnt ∧
+    (p = false → (assignIds p m).groups.map eraseGroup = m.groups.map eraseGroup) ∧
+    (assignIds p m).cams = m.cams ∧ (assignIds p m).cordons = m.cordons ∧ (assignIds p m).views = m.views ∧
+    (assignIds p m).mapVer = m.mapVer ∧ (assignIds p m).quickhide = m.quickhide := by
+  refine ⟨?_, ?_, ?_, ?_, rfl, rfl, rfl, rfl, rfl⟩
+  · simp only [assignIds]; exact assignVisList_erase p m.vis _
+  · simp only [assignIds]; exact (assignEnt_erase p m.spawn _).1
+  · simp only [assignIds]; exact assignEnts_erase p m.ents _
+  · intro hp
+    subst hp
+    simp only [assignIds]
+    have := assignGroups_erase m.groups {} [] inv_default (by simp)
+    simpa using this
+
+
 end C06
